@@ -10,6 +10,7 @@ import (
 	"os"
 	"os/exec"
 	"path/filepath"
+	"regexp"
 	"runtime"
 	"runtime/debug"
 	"runtime/pprof"
@@ -450,8 +451,8 @@ func parentMain(d *Driver, flavour, tier string, seed int64) int {
 				)
 				out, err := cmd.CombinedOutput()
 				t := string(out)
-				if len(t) > 4000 {
-					t = t[len(t)-4000:]
+				if len(t) > 8000 {
+					t = t[:4000] + "\n...\n" + t[len(t)-4000:]
 				}
 				ch <- res{id, err, t}
 			}(bi, bin, i)
@@ -470,6 +471,15 @@ func parentMain(d *Driver, flavour, tier string, seed int64) int {
 					merged.P.Counters["workers_crashed"]++
 					continue
 				}
+			}
+			if f := libraryCrash(r.tail); f != nil {
+				// an unrecovered panic or fatal error whose stack is inside the library (typically in a
+				// goroutine the library started, which no caller can recover): a violation, not a
+				// machinery fault
+				merged.Report(f)
+				merged.Flag("exhaustive", false)
+				merged.P.Counters["workers_crashed"]++
+				continue
 			}
 			fmt.Fprintf(os.Stderr, "worker %d failed: %v\n%s\n", r.i, r.err, r.tail)
 			bad++
@@ -500,6 +510,53 @@ func parentMain(d *Driver, flavour, tier string, seed int64) int {
 		d.Post(merged)
 	}
 	return finish(d, merged, flavour, time.Since(start))
+}
+
+// libraryCrash recognises a worker that died of a panic / fatal error raised inside the library
+// under test: the panicking goroutine's stack (up to the first blank line) mentions the library
+// and no harness frame comes before it.
+func libraryCrash(out string) *Finding {
+	i := strings.Index(out, "panic: ")
+	j := strings.Index(out, "fatal error: ")
+	if i < 0 || (j >= 0 && j < i) {
+		i = j
+	}
+	if i < 0 {
+		return nil
+	}
+	rest := out[i:]
+	first := rest
+	if k := strings.Index(first, "\n"); k > 0 {
+		first = first[:k]
+	}
+	// the first goroutine block after the message
+	blk := rest
+	if k := strings.Index(blk, "\ngoroutine "); k >= 0 {
+		blk = blk[k+1:]
+		if e := strings.Index(blk, "\n\n"); e > 0 {
+			blk = blk[:e]
+		}
+	}
+	lib := strings.Index(blk, "github.com/pierrec/lz4/v4")
+	if lib < 0 || strings.Contains(blk[:lib], "verif/harness/") {
+		return nil
+	}
+	if strings.Contains(blk[lib:lib+60], "/verifsched") && !strings.Contains(blk, "lz4/v4.") && !strings.Contains(blk, "lz4/v4/internal") {
+		return nil // scheduler shim only
+	}
+	if len(first) > 90 {
+		first = first[:90]
+	}
+	// drop addresses/ranges so that the signature is stable
+	sig := regexp.MustCompile(`[0-9]+`).ReplaceAllString(first, "N")
+	return &Finding{Sig: "the library crashes the process (unrecovered in a library goroutine): " + sig, What: first, Case: map[string]string{"stderr": rest[:minInt(len(rest), 1500)]}, Count: 1}
+}
+
+func minInt(a, b int) int {
+	if a < b {
+		return a
+	}
+	return b
 }
 
 func merge(c *Ctx, p *Partial) {
